@@ -93,7 +93,9 @@ TEXTS = {
                 "itself scores 1 for GraphIC / Jiang-Conrath / Mutation; two distinct unannotated terms score 0 for Mutation; Distance ignores "
                 "the kind; the zero-denominator guards of Lin and JC; Resnik is 0 or the IC of a common ancestor (selves included); SYMMETRY of "
                 "all 8 algorithms x 3 kinds (whenever a score is returned the swapped call returns the same score) in every number structure "
-                "with commutative addition, resting on C12's list equalities for union / intersection. PARTIAL: "
+                "with commutative addition, resting on C12's list equalities for union / intersection; over the REALS (exact arithmetic, IC = "
+                "-ln(n/N)) every returned score is >= 0 and every division is by a positive number, for every ontology a Builder script "
+                "builds (C04_exact_scores_nonnegative, C04_builder_scores_nonnegative; stdlib Reals axioms). PARTIAL: "
                 "'value of the documented formula', finite and >= 0 are decided per input by spec_C04, which recomputes all 24 scores "
                 "of every ordered pair from the crate's own observation (ancestor sets, ICs, shortest distances, annotation sets) in binary32 "
                 "and demands bit equality, equality under argument swap, no NaN / infinity / negative value and the special cases; the "
